@@ -96,6 +96,37 @@ def guarded_bounds(F, B, bb, t):
     return None
 
 
+def guarded_split_at(B, bb, t):
+    """`s.split_at(i)` with i a position `s.find(..)` / `s.rfind(..)` answered with (a character boundary inside s) or, where nothing
+    was found, `s.len()` — of the same s"""
+    if len(t.get("args") or []) != 2:
+        return None
+
+    def position_in_s(op, depth=0):
+        os_ = M.trace(B, op, ())
+        if not os_ or depth > 3:
+            return False
+        for o in os_:
+            if o.kind != "call":
+                return False
+            d = M.Body.callee_decl(o.term) or ""
+            args = o.term.get("args") or []
+            if d.endswith(("str>::find", "str>::rfind")) and any(isinstance(p_, dict) and p_.get("downcast") == "Some" for p_ in o.proj) and _same_slice(B, args[0], t["args"][0]):
+                continue
+            if d.endswith(("str>::find", "str>::rfind")) and not o.proj:
+                continue       # the Option itself (unwrapped by the caller below)
+            if d.endswith("str>::len") and _same_slice(B, args[0], t["args"][0]):
+                continue
+            if d.endswith(("Option::<T>::unwrap_or", "Option::<T>::unwrap_or_else")) and len(args) == 2:
+                opt_ok = all(x.kind == "call" and (M.Body.callee_decl(x.term) or "").endswith(("str>::find", "str>::rfind"))
+                             and _same_slice(B, x.term["args"][0], t["args"][0]) for x in M.trace(B, args[0], ())) and bool(M.trace(B, args[0], ()))
+                if opt_ok and position_in_s(args[1], depth + 1):
+                    continue
+            return False
+        return True
+    return "the position was found in the same text (or is its length)" if position_in_s(t["args"][1]) else None
+
+
 def guarded_unwrap(B, bb, t):
     """`x.unwrap()` dominated by the Some/Ok arm of a test on the same place (is_some()/is_ok()/discriminant)."""
     recv = M.trace(B, t["args"][0], ())
@@ -323,6 +354,12 @@ def run(ck, F):
             n_guarded += 1
             ck.ok("R1", f"{what}#{n}:guarded", site, f"{what} dominated by a test of the same value", fn=fn)
             continue
+        if t.get("k") == "call" and what.endswith("str>::split_at"):
+            why = guarded_split_at(B, bb, t)
+            if why:
+                n_guarded += 1
+                ck.ok("R1", f"{what}#{n}:guarded", site, f"split position inside the text: {why}", fn=fn)
+                continue
         if t.get("k") == "assert":
             why = guarded_bounds(F, B, bb, t)
             if why:
